@@ -52,9 +52,8 @@ func f5Bounds(tier string) f5Bound {
 
 // f5Item is one program of the family, built on demand (shards skip most of them).
 type f5Item struct {
-	ID       string
+	Cfg      f5cfg
 	Template bool // also run in <?php mode (the small end of every sub-family)
-	Build    func() *Program
 }
 
 // ---- label alphabets ------------------------------------------------------------------------------
@@ -151,7 +150,8 @@ func f5setup(dom string, labs []f5lab, r int, off string) []*Stmt {
 			}
 		case dom == "str" && l.kind == "var":
 			if off != "" { // nominal value in round 0, the next one in round 1
-				out = append(out, Assign(fmt.Sprintf("s%d", l.v), Match(Var(off), Arm{Conds: []*Expr{Int(0)}, Val: Str(f5strs[l.v])}, Arm{Val: Str(f5strs[(l.v+1)%3])})))
+				out = append(out, Assign(fmt.Sprintf("s%d", l.v), Str(f5strs[l.v])),
+					If(Eq(Var(off), Int(1)), Assign(fmt.Sprintf("s%d", l.v), Str(f5strs[(l.v+1)%3]))))
 			} else {
 				out = append(out, Assign(fmt.Sprintf("s%d", l.v), Str(f5strs[(l.v+r)%3])))
 			}
@@ -462,6 +462,144 @@ func f5chainProgram(labs []f5lab, hasElse, swapped bool) *Program {
 	return p
 }
 
+// ---- configurations ---------------------------------------------------------------------------------
+
+// f5cfg is one point of the family's parameter space.
+type f5cfg struct {
+	Disp    string  // "switch" | "match" | "chain"
+	Dom     string  // label type: "int" | "str" | "bool"
+	Form    string  // switch: subject form ("foreach" or one of f5IntSubjects)
+	Labs    []f5lab // labels / conditions in source order
+	DefPos  int     // switch: -1 none, else position among the labels; match: position among the arms
+	Ending  string  // switch: one of f5Endings
+	Comp    []int   // match: conditions per arm
+	ValKind string  // match: arm values "lit" | "call"
+	HasElse bool    // chain
+	Swapped bool    // chain: `L == $x` instead of `$x == L`
+}
+
+func (c f5cfg) ID() string {
+	switch c.Disp {
+	case "switch":
+		return fmt.Sprintf("F5/switch-%s/%s/%s/def@%d/%s", c.Dom, c.Form, f5name(c.Labs), c.DefPos, c.Ending)
+	case "match":
+		return fmt.Sprintf("F5/match-%s/%s/arms%v/def@%d/val-%s", c.Dom, f5name(c.Labs), c.Comp, c.DefPos, c.ValKind)
+	}
+	return fmt.Sprintf("F5/chain/%s/else-%v/swapped-%v", f5name(c.Labs), c.HasElse, c.Swapped)
+}
+
+func (c f5cfg) Build() *Program {
+	switch c.Disp {
+	case "switch":
+		return f5switchProgram(c.Dom, c.Form, c.Labs, c.DefPos, c.Ending)
+	case "match":
+		return f5matchProgram(c.Dom, c.Labs, c.Comp, c.DefPos, c.ValKind)
+	}
+	return f5chainProgram(c.Labs, c.HasElse, c.Swapped)
+}
+
+// Shrink lists the neighbours of c that are simpler in one parameter (fewer labels, no / last
+// default, `break` endings, foreach subject, a simpler label form, literal arm values ...), most
+// drastic first. A failing program is first walked down these edges (one run per candidate) before
+// the generic AST reducer sees it: the thousands of failing supersets of one defect meet in a few
+// parameter-minimal programs, and only those are reduced statement by statement.
+func (c f5cfg) Shrink() []f5cfg {
+	var out []f5cfg
+	with := func(f func(n *f5cfg)) {
+		n := c
+		n.Labs = append([]f5lab(nil), c.Labs...)
+		n.Comp = append([]int(nil), c.Comp...)
+		f(&n)
+		out = append(out, n)
+	}
+	if len(c.Labs) > 1 {
+		for i := range c.Labs {
+			i := i
+			with(func(n *f5cfg) {
+				n.Labs = append(n.Labs[:i], n.Labs[i+1:]...)
+				switch c.Disp {
+				case "switch":
+					if n.DefPos > i {
+						n.DefPos--
+					}
+				case "match": // the condition leaves its arm; an arm left empty disappears
+					at := 0
+					for j := range n.Comp {
+						if i < at+n.Comp[j] {
+							n.Comp[j]--
+							if n.Comp[j] == 0 {
+								n.Comp = append(n.Comp[:j], n.Comp[j+1:]...)
+								if n.DefPos > j {
+									n.DefPos--
+								}
+							}
+							break
+						}
+						at += n.Comp[j]
+					}
+				}
+			})
+		}
+	}
+	switch c.Disp {
+	case "switch":
+		if c.DefPos >= 0 {
+			with(func(n *f5cfg) { n.DefPos = -1 })
+			if c.DefPos != len(c.Labs) {
+				with(func(n *f5cfg) { n.DefPos = len(c.Labs) })
+			}
+		}
+		for _, e := range f5Endings {
+			if e == c.Ending {
+				break
+			}
+			e := e
+			with(func(n *f5cfg) { n.Ending = e })
+		}
+		if c.Form != "foreach" {
+			with(func(n *f5cfg) { n.Form = "foreach" })
+		}
+	case "match":
+		if c.DefPos != len(c.Comp) {
+			with(func(n *f5cfg) { n.DefPos = len(n.Comp) })
+		}
+		if c.ValKind != "lit" {
+			with(func(n *f5cfg) { n.ValKind = "lit" })
+		}
+		for j := range c.Comp { // split a multi-condition arm
+			if c.Comp[j] > 1 {
+				j := j
+				with(func(n *f5cfg) {
+					rest := append([]int{1, n.Comp[j] - 1}, n.Comp[j+1:]...)
+					n.Comp = append(n.Comp[:j], rest...)
+					if n.DefPos > j {
+						n.DefPos++
+					}
+				})
+			}
+		}
+	case "chain":
+		if c.HasElse {
+			with(func(n *f5cfg) { n.HasElse = false })
+		}
+		if c.Swapped {
+			with(func(n *f5cfg) { n.Swapped = false })
+		}
+	}
+	// a simpler label form with the same value (alphabet order = simplest first)
+	kinds := map[string][]string{"int": {"lit", "var", "expr", "call"}, "str": {"lit", "var", "call"}, "bool": {"eq", "lt", "var", "call"}}[c.Dom]
+	for i, l := range c.Labs {
+		for _, k := range kinds {
+			if k == l.kind {
+				break
+			}
+			i, k := i, k
+			with(func(n *f5cfg) { n.Labs[i].kind = k })
+		}
+	}
+	return out
+}
+
 // ---- enumeration ----------------------------------------------------------------------------------
 
 // f5tuples calls f with every sequence of n labels of the alphabet (odometer order).
@@ -501,9 +639,9 @@ func f5name(labs []f5lab) string {
 // F5 streams the family in a fixed order; yield returns false to stop.
 func F5(b f5Bound, yield func(f5Item) bool) {
 	ok := true
-	y := func(id string, tmpl bool, build func() *Program) bool {
+	y := func(c f5cfg, tmpl bool) bool {
 		if ok {
-			ok = yield(f5Item{ID: "F5/" + id, Template: tmpl, Build: build})
+			ok = yield(f5Item{Cfg: c, Template: tmpl})
 		}
 		return ok
 	}
@@ -513,9 +651,7 @@ func F5(b f5Bound, yield func(f5Item) bool) {
 			f5tuples(alpha, k, func(labs []f5lab) bool {
 				for defPos := -1; defPos <= k; defPos++ {
 					for _, ending := range endings {
-						labs, defPos, ending := labs, defPos, ending
-						id := fmt.Sprintf("switch-%s/%s/%s/def@%d/%s", dom, form, f5name(labs), defPos, ending)
-						if !y(id, k <= 2 && form == "foreach", func() *Program { return f5switchProgram(dom, form, labs, defPos, ending) }) {
+						if !y(f5cfg{Disp: "switch", Dom: dom, Form: form, Labs: labs, DefPos: defPos, Ending: ending}, k <= 2 && form == "foreach") {
 							return false
 						}
 					}
@@ -541,9 +677,7 @@ func F5(b f5Bound, yield func(f5Item) bool) {
 				f5tuples(alpha, c, func(labs []f5lab) bool {
 					for defPos := 0; defPos <= len(comp); defPos++ {
 						for _, vk := range []string{"lit", "call"} {
-							labs, comp, defPos, vk := labs, comp, defPos, vk
-							id := fmt.Sprintf("match-%s/%s/arms%v/def@%d/val-%s", dom, f5name(labs), comp, defPos, vk)
-							if !y(id, c <= 1, func() *Program { return f5matchProgram(dom, labs, comp, defPos, vk) }) {
+							if !y(f5cfg{Disp: "match", Dom: dom, Labs: labs, Comp: comp, DefPos: defPos, ValKind: vk}, c <= 1) {
 								return false
 							}
 						}
@@ -562,9 +696,7 @@ func F5(b f5Bound, yield func(f5Item) bool) {
 					if swapped && k > b.SubK {
 						continue
 					}
-					labs, hasElse, swapped := labs, hasElse, swapped
-					id := fmt.Sprintf("chain/%s/else-%v/swapped-%v", f5name(labs), hasElse, swapped)
-					if !y(id, k <= 1, func() *Program { return f5chainProgram(labs, hasElse, swapped) }) {
+					if !y(f5cfg{Disp: "chain", Dom: "int", Labs: labs, HasElse: hasElse, Swapped: swapped}, k <= 1) {
 						return false
 					}
 				}
